@@ -274,7 +274,30 @@ theorem C10_span_attribution_covers (rows : List Row) (ws : Waits) (w : Int × I
   rw [hs, hdst]
   exact hc
 
-/-- Non-vacuity of `C10_span_attribution_covers` (and of `C08_graph_forward`'s host-side hypotheses): an operator
+/-- **Every span edge is attributed to an event of the same thread or stream.** Under the hypotheses
+of `C10_span_attribution_covers`: the two nodes of a span edge and the event the edge is attributed to
+(unless the rule fell through to the root, −1) are events of one `(pid, tid)` family of the window —
+a host thread, or a device stream. -/
+theorem C10_span_attribution_same_thread (rows : List Row) (ws : Waits) (w : Int × Int) (zl : Bool)
+    (hrows : ∀ r ∈ clip rows w, findRow rows r.idx = some r)
+    (hdur : ∀ r ∈ clip rows w, 0 ≤ r.dur) (hidx : ∀ r ∈ clip rows w, 0 ≤ r.idx)
+    (hwf : ∀ t ∈ C13.threadsOf (clip rows w), C03.WF ((C13.threadRows (clip rows w) t).map fun r => (⟨r.idx, r.ts, max r.dur 0⟩ : C03.Ev))) :
+    ∀ e ∈ (build rows ws w zl).2.edges, e.ty = .op →
+      ∃ a, attrOf (build rows ws w zl).2 e = some a ∧ ∃ t,
+        (∃ r ∈ C13.threadRows (clip rows w) t, r.idx = e.src.ev) ∧
+        (∃ r ∈ C13.threadRows (clip rows w) t, r.idx = e.dst.ev) ∧
+        (0 ≤ a → ∃ r ∈ C13.threadRows (clip rows w) t, r.idx = a) := by
+  intro e he hty
+  have inv := applyAll_attrInv rows (descs rows (clip rows w) ws zl) [] ⟨[], []⟩ (by intro e he; cases he)
+  obtain ⟨d, hd, hdty, hed, hat⟩ := inv e he hty
+  simp only [List.nil_append] at hd
+  obtain ⟨t, h1, h2, h3⟩ := descs_fam rows ws w zl hrows hdur hidx hwf d hd hdty
+  refine ⟨attrEv e d.par, hat, t, ?_, ?_, ?_⟩
+  · rw [hed]; exact h1
+  · rw [hed]; exact h2
+  · rw [hed]; exact h3
+
+/-- Non-vacuity of `C10_span_attribution_covers` / `C10_span_attribution_same_thread` (and of `C08_graph_forward`'s host-side hypotheses): an operator
 that follows a sibling inside an annotation — the shape on which the tracked parent and the entered event's
 parent differ. -/
 def cvRows : List Row := [
